@@ -54,6 +54,9 @@ type Coll struct {
 type PName struct {
 	Space string `json:"ns"`
 	Local string `json:"local"`
+	// Fill makes the naming element of the request non-empty (what REPORT-style clients do with calendar-data and
+	// address-data, and what a sloppy client may do with any name): 1 = text, 2 = a child element, 3 = both
+	Fill int `json:"fill,omitempty"`
 }
 
 type Case struct {
@@ -302,7 +305,14 @@ func body(c Case, form string, names []PName) (string, string) {
 	default:
 		p := vx.El(vdav.NSDAV, "prop")
 		for _, n := range names {
-			p.Add(vx.El(n.Space, n.Local))
+			e := vx.El(n.Space, n.Local)
+			if n.Fill&1 != 0 {
+				e.Add(vx.T("requested"))
+			}
+			if n.Fill&2 != 0 {
+				e.Add(vx.El(n.Space, "part").With("", "name", "VERSION"))
+			}
+			p.Add(e)
 		}
 		root = vx.El(vdav.NSDAV, "propfind", p)
 	}
@@ -524,10 +534,10 @@ func dflt(s string) string {
 // ---------------------------------------------------------------------------
 
 var namePool = []PName{
-	{vdav.NSDAV, "resourcetype"}, {vdav.NSDAV, "displayname"}, {vdav.NSDAV, "getetag"}, {vdav.NSDAV, "getcontentlength"}, {vdav.NSDAV, "getcontenttype"}, {vdav.NSDAV, "getlastmodified"}, {vdav.NSDAV, "current-user-principal"},
-	{vdav.NSCal, "calendar-home-set"}, {vdav.NSCal, "calendar-description"}, {vdav.NSCal, "supported-calendar-data"}, {vdav.NSCal, "supported-calendar-component-set"}, {vdav.NSCal, "max-resource-size"}, {vdav.NSCal, "calendar-data"},
-	{vdav.NSCard, "addressbook-home-set"}, {vdav.NSCard, "addressbook-description"}, {vdav.NSCard, "supported-address-data"}, {vdav.NSCard, "max-resource-size"}, {vdav.NSCard, "address-data"},
-	{vdav.NSDAV, "owner"}, {vdav.NSDAV, "quota-used-bytes"}, {vdav.NSDAV, "foo"}, {"urn:x", "bar"}, {"http://example.org/ns", "baz"}, {"urn:x", "getetag"}, {vdav.NSCal, "getetag"}, {"", "plain"},
+	{vdav.NSDAV, "resourcetype", 0}, {vdav.NSDAV, "displayname", 0}, {vdav.NSDAV, "getetag", 0}, {vdav.NSDAV, "getcontentlength", 0}, {vdav.NSDAV, "getcontenttype", 0}, {vdav.NSDAV, "getlastmodified", 0}, {vdav.NSDAV, "current-user-principal", 0},
+	{vdav.NSCal, "calendar-home-set", 0}, {vdav.NSCal, "calendar-description", 0}, {vdav.NSCal, "supported-calendar-data", 0}, {vdav.NSCal, "supported-calendar-component-set", 0}, {vdav.NSCal, "max-resource-size", 0}, {vdav.NSCal, "calendar-data", 0},
+	{vdav.NSCard, "addressbook-home-set", 0}, {vdav.NSCard, "addressbook-description", 0}, {vdav.NSCard, "supported-address-data", 0}, {vdav.NSCard, "max-resource-size", 0}, {vdav.NSCard, "address-data", 0},
+	{vdav.NSDAV, "owner", 0}, {vdav.NSDAV, "quota-used-bytes", 0}, {vdav.NSDAV, "foo", 0}, {"urn:x", "bar", 0}, {"http://example.org/ns", "baz", 0}, {"urn:x", "getetag", 0}, {vdav.NSCal, "getetag", 0}, {"", "plain", 0},
 }
 
 func genObj(rt *rapid.T, i int) Obj {
@@ -679,7 +689,11 @@ func TestPropfind(t *testing.T) {
 		if c.Form == "prop" {
 			n := rapid.IntRange(0, 8).Draw(rt, "nnames")
 			for i := 0; i < n; i++ {
-				c.Names = append(c.Names, rapid.SampledFrom(namePool).Draw(rt, "name"))
+				pn := rapid.SampledFrom(namePool).Draw(rt, "name")
+				if rapid.IntRange(0, 5).Draw(rt, "fill?") == 0 {
+					pn.Fill = rapid.IntRange(1, 3).Draw(rt, "fill")
+				}
+				c.Names = append(c.Names, pn)
 			}
 		}
 		run(t, rt, c)
